@@ -660,7 +660,9 @@ class C05(PropCheck):
                             def tick(attr, p1=p1, p2=p2, orig_tick=orig_tick):
                                 p2.counts[attr] = p2.counts.get(attr, 0) + 1
                                 if attr == "elaborate_frame" and p2.counts[attr] == p2.k and p2.fired is None and p1.fired is not None:
-                                    p2.fired = exc_type(2)(778)
+                                    # (same type and same text as the first one, but another exception object: two failures
+                                    # that look alike are still two failures)
+                                    p2.fired = exc_type(0)(777)
                                     p2.fired_in_outermost = p1.in_outermost > 0
                                     p2.ended_mark = len(p1.outermost_ended)
                                     raise p2.fired
